@@ -83,11 +83,13 @@ def load_merchant_rules(csv_path):
             tags_str = tags_str.strip()
             tags = [t.strip() for t in tags_str.split('|') if t.strip()] if tags_str else []
 
+            # Cells missing from a short row read as '' (not None, which migration would write
+            # out as the text "None"); names are trimmed like the .rules parser trims them
             rules.append((
                 parsed.regex_pattern,  # Pure regex for matching
-                row['Merchant'],
-                row['Category'],
-                row['Subcategory'],
+                (row.get('Merchant') or '').strip(),
+                (row.get('Category') or '').strip(),
+                (row.get('Subcategory') or '').strip(),
                 parsed,  # Full parsed pattern with conditions
                 tags  # List of tags
             ))
